@@ -95,6 +95,17 @@ fn push(loc: &Path, s: Step) -> Path {
     p
 }
 
+/// What a `serde_json::Value` built from the document holds: JSON has one kind of integer, so a
+/// non-negative number handed over as `NegativeInteger` is the same number there.
+pub fn json_view(d: &Doc) -> Doc {
+    match d {
+        Doc::Neg(n) if *n >= 0 => Doc::Int(*n as u64),
+        Doc::Seq(v) => Doc::Seq(v.iter().map(json_view).collect()),
+        Doc::Map(m) => Doc::Map(m.iter().map(|(k, v)| (k.clone(), json_view(v))).collect()),
+        other => other.clone(),
+    }
+}
+
 pub fn user_token(fn_id: u32, arg_hash: u64) -> String {
     format!("user#{fn_id}:{arg_hash:016x}")
 }
@@ -342,7 +353,7 @@ impl<'a> Model<'a> {
                 // the serde_json::Value target rebuilds the document; the only thing it cannot
                 // hold is a non-finite float (deliverable by a second value source only)
                 if self.json_target(doc, loc, out) {
-                    Some(MVal::Json(doc.sorted().render()))
+                    Some(MVal::Json(json_view(doc).sorted().render()))
                 } else {
                     None
                 }
